@@ -125,6 +125,8 @@ std::string Scenario::CommandLine(const Stmt& s) const {
 static bool DyndepOnRule(const Stmt& s) { return !s.phony && !s.dyndep.empty() && Hash64(s.dyndep, (uint64_t)s.id * 31 + 7) % 2 == 0; }
 
 // A third of the statements with deps / depfile bind them on the build statement instead of the rule.
+// a third of the statements bind restat / generator on the build statement, not on the rule
+static bool FlagsOnBuild(const Stmt& s) { return !s.regen && !s.outs.empty() && Hash64(s.outs[0], (uint64_t)s.id * 29 + 13) % 3 == 0; }
 std::string MsvcPrefix(const Stmt& s) {
   if (s.deps_kind != 3 || s.outs.empty()) return "Note: including file: ";
   switch (Hash64(s.outs[0], (uint64_t)s.id * 7 + 3) % 6) {
@@ -148,8 +150,8 @@ static void PrintStmt(const Scenario& sc, const Stmt& s, std::string* o) {
     *o += buf;
     *o += "  command = " + sc.RuleCommandText(s) + "\n";
     if (s.description) { snprintf(buf, sizeof buf, "  description = D%d $out\n", s.id); *o += buf; }
-    if (s.restat) *o += "  restat = 1\n";
-    if (s.generator) *o += "  generator = 1\n";
+    if (s.restat && !FlagsOnBuild(s)) *o += "  restat = 1\n";
+    if (s.generator && !FlagsOnBuild(s)) *o += "  generator = 1\n";
     if ((s.deps_kind == 1 || s.deps_kind == 2) && !DepsOnBuild(s)) {
       // half of the depfile bindings are spelled through $out, as build files usually do
       // (the unescaped expansion is what names the file, whatever characters $out has)
@@ -181,6 +183,7 @@ static void PrintStmt(const Scenario& sc, const Stmt& s, std::string* o) {
   if (!s.validations.empty()) { *o += " |@"; for (auto& p : s.validations) *o += " " + NinjaPathEscape(p); }
   *o += "\n";
   if (s.phony && !s.pool.empty()) *o += "  pool = " + s.pool + "\n";
+  if (!s.phony && FlagsOnBuild(s)) { if (s.restat) *o += "  restat = 1\n"; if (s.generator) *o += "  generator = 1\n"; }
   if (!s.dyndep.empty() && !DyndepOnRule(s)) *o += "  dyndep = " + NinjaValueEscape(s.dyndep) + "\n";
   if (DepsOnBuild(s)) {
     if (s.deps_kind == 1 || s.deps_kind == 2) *o += "  depfile = " + NinjaValueEscape(s.depfile) + "\n";
@@ -377,6 +380,8 @@ struct Gen {
     if (Has(F_POOLS)) {
       int np = 1 + (int)C(2);
       for (int i = 0; i < np; i++) { char b[8]; snprintf(b, sizeof b, "p%d", i + 1); sc.pools[b] = 1 + (int)C(3); }
+      // (depth 0 is legal and means "no limit": one scenario in eight has such a pool)
+      if (Hash64(std::string("pooldepth"), (uint64_t)sc.features * 3 + sc.sources.size()) % 8 == 0) sc.pools.begin()->second = 0;
     }
     int n = 2 + (int)C((uint32_t)std::max(1, gp.max_stmts - 1));
     for (int i = 0; i < n; i++) MakeStmt(i);
@@ -436,12 +441,23 @@ struct Gen {
       snprintf(b, sizeof b, "o%di", i);
       // half of the implicit outputs live in a directory of their own (which nothing else creates)
       std::string idir = (Has(F_SUBDIRS) && Hash64(std::string(b), (uint64_t)i * 7 + 2) % 2 == 0) ? "x" + std::to_string(i) + "/" : dir;
+      // (a third of those directories lie *below* the directory of the first output)
+      if (idir != dir && !dir.empty() && Hash64(std::string(b), (uint64_t)i * 7 + 3) % 3 == 0) idir = dir + idir;
       s.imp_outs.push_back(idir + Deco(b, 5));
     }
     int nin = 1 + (int)C(3);
     for (int k = 0; k < nin; k++) AddUnique(s.ins, PickInput(), s);
     if (Has(F_IMPLICIT)) { int m = (int)C(3); for (int k = 0; k < m; k++) AddUnique(s.imp_ins, PickInput(), s); }
     if (Has(F_ORDERONLY)) { int m = (int)C(3); for (int k = 0; k < m; k++) AddUnique(s.oo_ins, PickInput(), s); }
+    // one statement in fifteen names its first input a second time - again as an explicit input, or as
+    // an implicit or order-only one (legal; the node then lists the statement twice among its users)
+    if (!s.ins.empty()) {
+      uint64_t hd = Hash64(s.outs[0], (uint64_t)i * 19 + 8);
+      if (hd % 15 == 0) {
+        std::vector<std::string>& v = (hd >> 8) % 3 == 0 ? s.ins : (hd >> 8) % 3 == 1 ? s.imp_ins : s.oo_ins;
+        if (&v != &s.imp_ins || Has(F_IMPLICIT)) if (&v != &s.oo_ins || Has(F_ORDERONLY)) v.push_back(s.ins[0]);
+      }
+    }
     s.restat = Flip(F_RESTAT, 1, 4);
     s.generator = Flip(F_GENERATOR, 1, 8);
     s.description = Flip(F_DESCRIPTION, 1, 3);
@@ -452,6 +468,11 @@ struct Gen {
     if (s.deps_kind == 1 || s.deps_kind == 2) {
       bool sub = Has(F_SUBDIRS) && C(3) == 0;
       s.depfile = (sub ? std::string("deps/") : std::string("")) + s.outs[0] + ".d";
+      // (one in four of the others: a directory of its own below the output's directory, d3/o3 -> d3/dep/o3.d)
+      if (!sub && Has(F_SUBDIRS) && s.outs[0].find('/') != std::string::npos && Hash64(s.outs[0], (uint64_t)i * 23 + 9) % 4 == 0) {
+        size_t sl = s.outs[0].rfind('/');
+        s.depfile = s.outs[0].substr(0, sl + 1) + "dep/" + s.outs[0].substr(sl + 1) + ".d";
+      }
       if (s.outs.size() > 1 && s.deps_kind == 2) {
         // deps = gcc needs a single explicit output in this ninja
         s.outs.resize(1);
